@@ -10,12 +10,12 @@ BASE = dict(
     Fam='<- MCFam', ListenFam='<- MCListenFam', Strict='FALSE', ReqFams='{0}',
     ChanNums='{16384, 16385}', LifeReqs='<- MCLifeAbsent', Txids='{"t1"}', Pays='{"p"}',
     Lens='<- MCLenSmall', InboundMTU='1600', PermSeqs='<- MCPermSeqs1',
-    DefaultLife='5', PermTO='2', ChanTO='3', MaxLife='3600', Denied='<- MCNoDenied', MaxDepth='6',
+    DefaultLife='5', PermTO='2', ChanTO='3', MaxLife='3600', Denied='<- MCNoDenied', Toks='{"none"}', ResvTO='30', MaxDepth='6',
 )
 
-INVS = "TypeOK C01_NeverInstalled NoOrphans C08_Bijection C08_Range"
+INVS = "TypeOK C01_NeverInstalled NoOrphans C08_Bijection C08_Range C19_ReservedOnce"
 PROPS = ("C01_OnlyAuthorised C02_OnlyPermitted C04_Isolation C05_WithinLimitsDelivered C06_Exact "
-         "C07_FullRestart C08_Conflict400 C19_SecondAllocate")
+         "C07_FullRestart C08_Conflict400 C19_SecondAllocate C19_TokenNeedsReservation")
 
 CFGS = {
     # ---- exhaustive model checking (invariants + action properties) -----------------------
@@ -38,6 +38,10 @@ CFGS = {
     "MC_mtu": dict(kind="mc", doc="payload lengths around the padding and buffer boundaries",
                    PeerIPs='{"A"}', PeerPorts='{1}', ChanNums='{16384}', Lens='<- MCLensMTU',
                    Pays='{"p", "stunlike", "chanlike", "zeros"}', MaxDepth='4'),
+    "MC_resv": dict(kind="mc", doc="EVEN-PORT / RESERVATION-TOKEN: reservations, their 30 s life, token use by any client",
+                    Clients='{"c1", "c2"}', PeerIPs='{"A"}', PeerPorts='{1}', ChanNums='{16384}', ReqFams='{0, 4}',
+                    LifeReqs='<- MCLifeAbsent0', Txids='{"t1", "t2"}', Toks='{"none", "even", "bogus", "c1", "c2"}',
+                    DefaultLife='40', PermTO='35', ChanTO='35', ResvTO='30', MaxDepth='6'),
     # ---- Engine A generation slices (every edge printed) ----------------------------------
     "GEN_relayA": dict(kind="gen", doc="one client: permissions, channels, both data paths, expiry (perm 2, chan 3, life 5)",
                        PermSeqs='<- MCPermSeqsAB', MaxDepth='6'),
@@ -61,6 +65,10 @@ CFGS = {
     "GEN_v6strict": dict(kind="gen", doc="StrictAddressFamily: absent family means IPv4 even on an IPv6 listener",
                          Clients='{"c6"}', PeerIPs='{"A", "X"}', PeerPorts='{1}', ReqFams='{0, 6}', Strict='TRUE',
                          ChanNums='{16384}', MaxDepth='5'),
+    "GEN_resv": dict(kind="gen", doc="EVEN-PORT / RESERVATION-TOKEN",
+                     Clients='{"c1", "c2"}', PeerIPs='{"A"}', PeerPorts='{1}', ChanNums='{16384}', ReqFams='{0, 4}',
+                     LifeReqs='<- MCLifeAbsent0', Txids='{"t1", "t2"}', Toks='{"none", "even", "bogus", "c1", "c2"}',
+                     DefaultLife='40', PermTO='35', ChanTO='35', ResvTO='30', MaxDepth='5'),
     "GEN_mtu": dict(kind="gen", doc="payload lengths / contents through both encapsulations and both directions",
                     PeerIPs='{"A"}', PeerPorts='{1}', ChanNums='{16384}', Lens='<- MCLensMTU',
                     Pays='{"p", "stunlike", "chanlike", "zeros"}', MaxDepth='4'),
@@ -70,7 +78,7 @@ CFGS = {
 }
 
 ORDER = ["Clients", "Users", "PeerIPs", "PeerPorts", "Fam", "ListenFam", "Strict", "ReqFams", "ChanNums", "LifeReqs",
-         "Txids", "Pays", "Lens", "InboundMTU", "PermSeqs", "DefaultLife", "PermTO", "ChanTO", "MaxLife", "Denied",
+         "Txids", "Pays", "Lens", "InboundMTU", "PermSeqs", "DefaultLife", "PermTO", "ChanTO", "MaxLife", "Denied", "Toks", "ResvTO",
          "MaxDepth"]
 
 for name, c in CFGS.items():
